@@ -20,7 +20,8 @@ import (
 )
 
 // kinds of calls: api, outcome of the protected function, acceptable-predicate (Breaker.tla: set of
-// accepted results, bit 1 = nil, 2 = errAcc, 4 = errUnacc; unused for do/dofb/allow)
+// accepted results, bit 1 = nil, 2 = errAcc, 4 = errUnacc; unused for do/dofb; for allow/reject the
+// class of the reason handed to Promise.Reject: 0 short, 1 empty, 2 long, 3 line breaks / verbs)
 type c01Kind struct {
 	api, oc string
 	n       int
@@ -32,7 +33,8 @@ var c01Kinds = []c01Kind{
 	{"allow", "accept", 0}, {"doacc", "err", 7}, {"dofbacc", "err", 4}, {"doacc", "acc", 2}, {"dofbacc", "ok", 5},
 	// failures
 	{"do", "err", 0}, {"do", "panic", 0}, {"doacc", "err", 3}, {"doacc", "panic", 3}, {"dofb", "err", 0}, {"dofb", "panic", 0},
-	{"dofbacc", "err", 3}, {"dofbacc", "panic", 3}, {"allow", "reject", 0},
+	{"dofbacc", "err", 3}, {"dofbacc", "panic", 3}, {"allow", "reject", 0}, {"allow", "reject", 1}, {"allow", "reject", 2},
+	{"allow", "reject", 3},
 	{"doacc", "ok", 6}, {"dofbacc", "ok", 2}, {"doacc", "ok", 0}, {"dofbacc", "acc", 5}, {"doacc", "panic", 7},
 }
 
@@ -65,8 +67,11 @@ func TestVerifC01Trace(t *testing.T) {
 	for r := 0; r < rounds; r++ {
 		tg := &coreTarget{prefix: fmt.Sprintf("c01trace/%d/%d/%d/", pid, shard, r), seed: kit.Seed()}
 		name := "a"
-		if rng.Intn(3) == 0 {
-			name = "p" // a private breaker (breaker.New) instead of the registry
+		switch rng.Intn(6) {
+		case 0, 1:
+			name = "p" // a private breaker (breaker.New(WithName)) instead of the registry
+		case 2:
+			name = "q" // a private breaker with a generated name (breaker.New())
 		}
 		coinRng = rand.New(rand.NewSource(rng.Int63()))
 		lenient = []float64{0, 0.3, 0.7}[rng.Intn(3)] // share of "do not reject" answers
